@@ -348,11 +348,18 @@ pub fn both_keys(ctx: &mut Ctx) {
 /// cofactorless equation accepts when [h]A is the identity): an open region for C02, but the ed25519 key
 /// type and CombinedKey must still agree on them (C11), and whatever is accepted must not break C03/C04.
 pub fn ed_small_order(ctx: &mut Ctx) {
-    let points: [&str; 4] = [
+    let points: [&str; 10] = [
         "0100000000000000000000000000000000000000000000000000000000000000", // identity
         "ecffffffffffffffffffffffffffffffffffffffffffffffffffffffffffffff7f", // order 2
         "0000000000000000000000000000000000000000000000000000000000000000", // order 4
         "0000000000000000000000000000000000000000000000000000000000000080", // order 4
+        // non-canonical encodings of small-order points (y >= p, or x = 0 with the sign bit set)
+        "0100000000000000000000000000000000000000000000000000000000000080",
+        "eeffffffffffffffffffffffffffffffffffffffffffffffffffffffffffffff7f",
+        "eeffffffffffffffffffffffffffffffffffffffffffffffffffffffffffffffff",
+        "edffffffffffffffffffffffffffffffffffffffffffffffffffffffffffffff7f",
+        "edffffffffffffffffffffffffffffffffffffffffffffffffffffffffffffffff",
+        "ecffffffffffffffffffffffffffffffffffffffffffffffffffffffffffffffff",
     ];
     let mut sig = vec![0u8; 64];
     sig[0] = 1;
@@ -473,6 +480,11 @@ pub fn c02(ctx: &mut Ctx) {
 }
 
 pub fn c10_decode_part(ctx: &mut Ctx) {
+    if !cfg!(miri) {
+        negated_key_pairs(ctx);
+        both_keys(ctx);
+        ed_small_order(ctx);
+    }
     // records for every key of the pools (edge scalars, leading-zero x), every key type
     let mut n = 0u64;
     for scheme in [Scheme::Secp, Scheme::Ed, Scheme::Toy] {
